@@ -88,6 +88,11 @@ pub mod epoll {
         pub const ERROR: EventSet = EventSet(0x008);
         pub const HANG_UP: EventSet = EventSet(0x010);
         pub const READ_HANG_UP: EventSet = EventSet(0x2000);
+        pub const PRIORITY: EventSet = EventSet(0x002);
+        pub const EDGE_TRIGGERED: EventSet = EventSet(1 << 31);
+        pub const ONE_SHOT: EventSet = EventSet(1 << 30);
+        pub const WAKE_UP: EventSet = EventSet(1 << 29);
+        pub const EXCLUSIVE: EventSet = EventSet(1 << 28);
         pub fn contains(&self, other: EventSet) -> bool {
             self.0 & other.0 == other.0
         }
